@@ -6,6 +6,7 @@ package main
 
 import (
 	"bytes"
+	"crypto/sha256"
 	"encoding/hex"
 	"fmt"
 	"math/big"
@@ -40,6 +41,80 @@ func randScalar(r *hx.Rng) *big.Int {
 		x.SetInt64(7)
 	}
 	return x
+}
+
+// ---- GF(p^2) helpers (a*i + b) to build points of the twist that are NOT in the order-r subgroup G2
+var p = bn256.P
+
+type f2 struct{ a, b *big.Int } // a*i + b
+
+func md(x *big.Int) *big.Int { return x.Mod(x, p) }
+func mul(u, v f2) f2 {
+	ad := new(big.Int).Mul(u.a, v.b)
+	bc := new(big.Int).Mul(u.b, v.a)
+	bd := new(big.Int).Mul(u.b, v.b)
+	ac := new(big.Int).Mul(u.a, v.a)
+	return f2{md(ad.Add(ad, bc)), md(bd.Sub(bd, ac))}
+}
+func add(u, v f2) f2 { return f2{md(new(big.Int).Add(u.a, v.a)), md(new(big.Int).Add(u.b, v.b))} }
+func conj(u f2) f2   { return f2{md(new(big.Int).Neg(u.a)), new(big.Int).Set(u.b)} }
+func eq(u, v f2) bool { return u.a.Cmp(v.a) == 0 && u.b.Cmp(v.b) == 0 }
+func exp(u f2, e *big.Int) f2 {
+	r := f2{big.NewInt(0), big.NewInt(1)}
+	for i := e.BitLen() - 1; i >= 0; i-- {
+		r = mul(r, r)
+		if e.Bit(i) == 1 {
+			r = mul(r, u)
+		}
+	}
+	return r
+}
+func sqrt(a f2) (f2, bool) {
+	one := f2{big.NewInt(0), big.NewInt(1)}
+	minus1 := f2{big.NewInt(0), new(big.Int).Sub(p, big.NewInt(1))}
+	e1 := new(big.Int).Sub(p, big.NewInt(3))
+	e1.Rsh(e1, 2)
+	a1 := exp(a, e1)
+	alpha := mul(a1, mul(a1, a))
+	a0 := mul(conj(alpha), alpha)
+	if eq(a0, minus1) {
+		return f2{}, false
+	}
+	x0 := mul(a1, a)
+	if eq(alpha, minus1) {
+		return mul(f2{big.NewInt(1), big.NewInt(0)}, x0), true
+	}
+	e2 := new(big.Int).Sub(p, big.NewInt(1))
+	e2.Rsh(e2, 1)
+	b := exp(add(one, alpha), e2)
+	return mul(b, x0), true
+}
+
+
+// twistPointOutsideG2 returns a random point R of the twist curve y^2 = x^3 + 3/(i+3) (almost surely
+// outside G2: the cofactor is 2p - r) as 128 bytes, and T = r*R (a non-identity point of cofactor order).
+func twistPointOutsideG2(rng *hx.Rng) ([]byte, *bn256.G2) {
+	inv10 := new(big.Int).ModInverse(big.NewInt(10), p)
+	tb := f2{md(new(big.Int).Mul(big.NewInt(-3), inv10)), md(new(big.Int).Mul(big.NewInt(9), inv10))}
+	for try := 0; try < 64; try++ {
+		x := f2{md(new(big.Int).SetBytes(rng.Bytes(32))), md(new(big.Int).SetBytes(rng.Bytes(32)))}
+		t := add(mul(mul(x, x), x), tb)
+		y, ok := sqrt(t)
+		if !ok || !eq(mul(y, y), t) {
+			continue
+		}
+		buf := append(append(append(b32(x.a), b32(x.b)...), b32(y.a)...), b32(y.b)...)
+		R := new(bn256.G2)
+		if _, err := R.Unmarshal(buf); err != nil {
+			continue
+		}
+		T := new(bn256.G2).ScalarMult(R, order)
+		if len(T.Marshal()) == 1 {
+			continue // R happened to lie in G2
+		}
+		return buf, T
+	}
+	return nil, nil
 }
 
 // observation of one candidate signature byte string on the implementation
@@ -330,6 +405,14 @@ func main() {
 				}
 				viol(key, "VerifySig(pk, msg, DeserializeSign(candidate)) = true for a byte string that is not the signature's encoding", info(c))
 			}
+			// parse-level faithfulness, independent of the pairing: what Deserialize accepts without error is a
+			// curve point and is byte for byte what Serialize writes back
+			if !o.Err && !o.Valid {
+				viol("C14/parse:invalid-point-signature", "Signature.Deserialize returns no error for bytes that are not a point of the curve (IsValid is false)", info(c))
+			}
+			if !o.Err && !bytes.Equal(o.Ser, c.b) {
+				viol("C14/encoding:noncanonical-signature:"+c.class, "Signature.Deserialize accepts a byte string that Serialize does not write back", info(c, "reserialized", hexs(o.Ser)))
+			}
 			if honest && (!bytes.Equal(o.Ser, hb) || o.Err || o.Nil || !o.Valid) {
 				viol("C14/roundtrip:signature", "Signature Serialize/Deserialize round trip changed the value", info(c, "reserialized", hexs(o.Ser)))
 			}
@@ -400,6 +483,24 @@ func main() {
 				map[string]interface{}{"kind": "exponent", "sk": skv.String(), "c": g.c.String(), "msg": hexs(msg), "accepted": o.Ok})
 		}
 
+		// ---- hash-to-point and Sign with a small secret key against the model's try-and-increment hash and
+		// affine group law (slow in the model: one modular square root / inversion is ~400 field multiplications)
+		if inst < 1 || (thorough && inst < 4) {
+			k := int64(2 + rng.Intn(2))
+			dg := sha256.Sum256(msg)
+			skS := groupsig.NewSeckeyFromBigInt(big.NewInt(k))
+			sgS := groupsig.Sign(*skS, msg)
+			sgb := sgS.Serialize()
+			ngb := new(bn256.G1).Neg(g1(sgb)).Marshal()
+			okS := groupsig.VerifySig(*groupsig.GeneratePubkey(*skS), msg, sgS)
+			res.Count(fmt.Sprintf("sign-small:k=%d:verifies=%v", k, okS), fmt.Sprintf("%d/small/%d", inst, k), true)
+			if !okS {
+				viol("C14/reject-honest:small-key", "Sign with a small secret key does not verify", map[string]interface{}{"sk": k, "msg": hexs(msg)})
+			}
+			cs.Add(fmt.Sprintf("(HashCase %s %d%%N %s %s %s)", hx.CoqHex(dg[:]), k, hx.CoqHex(H.Marshal()), hx.CoqHex(sgb), hx.CoqHex(ngb)),
+				map[string]interface{}{"kind": "hash-and-sign", "msg": hexs(msg), "sha256": hexs(dg[:]), "sk": k, "H": hexs(H.Marshal()), "sig": hexs(sgb), "neg": hexs(ngb)})
+		}
+
 		// ---- public-key candidates (verified against the honest signature)
 		Q := g2(pkb)
 		var pc []cand
@@ -409,6 +510,14 @@ func main() {
 		padd("alg:other-key", pk2.Serialize())
 		padd("alg:sum", new(bn256.G2).Add(Q, g2(pk2.Serialize())).Marshal())
 		padd("alg:multiple", new(bn256.G2).ScalarMult(Q, av).Marshal())
+		if inst < 3 || thorough {
+			// G2.Unmarshal checks the twist equation only (no subgroup test): a twist point outside G2 and the
+			// key shifted by a cofactor-order point T = r*R parse as public keys; neither may verify the signature
+			if rb, T := twistPointOutsideG2(rng); rb != nil {
+				padd("subgroup:twist-point-outside-G2", rb)
+				padd("subgroup:pk+cofactor-point", new(bn256.G2).Add(Q, T).Marshal())
+			}
+		}
 		padd("identity", make([]byte, 128))
 		padd("identity-marshal", []byte{0})
 		padd("empty", []byte{})
@@ -461,6 +570,9 @@ func main() {
 			}
 			if honest && (o.Err != 0 || !bytes.Equal(o.Ser, pkb)) {
 				viol("C14/roundtrip:pubkey", "Pubkey Serialize/Deserialize round trip changed the value", info(c, "reserialized", hexs(o.Ser)))
+			}
+			if o.Err == 0 && !bytes.Equal(o.Ser, c.b) {
+				viol("C14/encoding:noncanonical-pubkey:"+c.class, "Pubkey.Deserialize accepts a byte string that Serialize does not write back", info(c, "reserialized", hexs(o.Ser)))
 			}
 			if !honest && o.Ok {
 				key := "C14/pubkey-accept-other:" + c.class
